@@ -4,7 +4,7 @@
    statements for EVERY schema that passes the boolean check wf_events_b (unique store names, parents
    are root stores, cascade deletes follow a strictly increasing store rank, i.e. no cascade cycle). *)
 From Coq Require Import List NArith Bool Permutation.
-From Storage Require Import Base.Bytes Store.Model Store.Events Store.EventProofs.
+From Storage Require Import Base.Bytes Store.Model Store.Events Store.EventProofs Store.EventAnyProofs.
 Import ListNotations.
 
 (* A committed transaction delivers, as a multiset, exactly the expected events: for each successful
@@ -161,3 +161,15 @@ Theorem commit_hooks_once : forall sch fuel st t,
   (to_committed o = false -> to_events o = [] /\ to_state o = st).
 Proof. exact commit_hooks_once_lemma. Qed.
 Print Assumptions commit_hooks_once.
+
+(* Schemas whose cascade wiring has cycles (e.g. a self-referential tree with cascade delete; wf_events_b
+   refuses them): every expected event is still delivered AT LEAST once and nothing else is delivered -
+   only "at most once" needs the acyclicity of wf_events_b. *)
+Theorem events_at_least_once_any_cascade : forall sch, wf_events0_b sch = true ->
+  forall fuel st t rs st' evs,
+  run_tx sch fuel st t = (rs, true, st', evs) ->
+  (forall e, (expected_events sch (tx_trace sch fuel st t) e <= count_ev e evs)%nat) /\
+  (forall e, In e evs -> exists st0 o st1, In (st0, o, st1) (tx_trace sch fuel st t) /\
+                                           (0 < expected_op sch st0 st1 o e)%nat).
+Proof. exact events_any_cascade_wf. Qed.
+Print Assumptions events_at_least_once_any_cascade.
